@@ -213,6 +213,9 @@ class NpProxy:
     @staticmethod
     def unique(ar, return_counts=False, axis=None, **kw):
         if not any_sym(ar):
+            ar = _np.asarray(ar)
+            if ar.dtype == object:
+                ar = ar.astype(float)
             return _np.unique(ar, return_counts=return_counts, axis=axis, **kw)
         ar = _np.asarray(ar, dtype=object)
         rows = [tuple(r) for r in ar] if axis == 0 else list(ar.ravel())
